@@ -227,6 +227,138 @@ def _work_child(args):
         return [], [("harness", "run_child_impl crashed: %r" % (e,))]
 
 
+def gen_basin_map(rng, n):
+    """basin maps of every kind over a basin with n events"""
+    kind = rng.choice(["identity", "subset", "repeats", "permutation",
+                       "same-length-ends", "same-length-ends", "single"])
+    if kind == "identity":
+        bm = list(range(n))
+    elif kind == "subset":
+        bm = sorted(rng.sample(range(n), rng.randint(1, n)))
+    elif kind == "repeats":
+        bm = sorted(rng.randrange(n) for _ in range(n + rng.randint(1, 4)))
+    elif kind == "permutation":
+        bm = list(range(n))
+        rng.shuffle(bm)
+    elif kind == "single":
+        bm = [rng.randrange(n)]
+    else:
+        # as long as the basin, first and last event in place, not identity
+        mid = [rng.randrange(n) for _ in range(max(0, n - 2))]
+        if rng.random() < 0.5:
+            mid.sort()
+        bm = ([0] + mid + [n - 1]) if n > 1 else [0]
+    return kind, bm
+
+
+def gen_basin_case(rng):
+    n = rng.choice([2, 3, 4, 6, 6, 9, 14])
+    feat = rng.choice(["deform", "deform", "area_um", "fl1_max"])
+    vals = gen_batch(rng, n, feat, rng.choice(["some", "many", "inf",
+                                               "clean"]))
+    kind, bm = gen_basin_map(rng, n)
+    ops = [rng.choice([0, 1, 2, 3]) for _ in range(rng.randint(1, 7))]
+    if rng.random() < 0.5:
+        ops = [o for o in ops if o != 3] or [rng.randint(0, 2)]
+        ops.append(3)     # the data are read only after the summaries
+    ops.append(rng.randint(0, 2))
+    return dict(feat=feat, vals=vals, bm=bm, bops=ops, kind=kind,
+                refetch=rng.random() < 0.3)
+
+
+def run_basin_impl(case, scratch):
+    """a feature seen through a mapped basin: reads (3) and summary queries
+    (0..2) in the given order; returns (values per query, failures)"""
+    np = _np()
+    import warnings
+    import dclab
+    from dclab.rtdc_dataset.writer import RTDCWriter
+    from . import gen
+    feat = case["feat"]
+    tag = "%d-%d" % (os.getpid(), id(case) % 100000)
+    src = os.path.join(scratch, "c20-bsrc-%s.rtdc" % tag)
+    ref = os.path.join(scratch, "c20-bref-%s.rtdc" % tag)
+    arr = dec_vals(np, case["vals"], feat)
+    bm = np.array(case["bm"], dtype=np.uint64)
+    out, fails = [], []
+    try:
+        with RTDCWriter(src, mode="reset") as hw:
+            hw.store_metadata(gen.base_meta(with_fl=True, run_id="c20-rid"))
+            hw.store_feature(feat, arr)
+        with RTDCWriter(ref, mode="reset") as hw:
+            hw.store_metadata(gen.base_meta(with_fl=True, run_id="c20-rid"))
+            hw.store_feature("userdef0", np.arange(len(bm), dtype=float))
+            hw.store_basin("src", "file", "hdf5", [src], basin_map=bm)
+        sel = np.asarray(arr, dtype=np.float64)[case["bm"]]
+        with dclab.new_dataset(ref) as ds, warnings.catch_warnings():
+            warnings.simplefilter("ignore")
+            fobj = ds[feat]
+            for o in case["bops"]:
+                if case.get("refetch"):
+                    fobj = ds[feat]
+                if o == 3:
+                    got = np.asarray(fobj[:], dtype=np.float64)
+                    if not np.array_equal(got, sel, equal_nan=True):
+                        fails.append(("basin-data", "mapped basin data "
+                                      "differ from basin[map]"))
+                    continue
+                name = ("min", "max", "mean")[o]
+                with np.errstate(all="ignore"):
+                    val = float(getattr(fobj, name)())
+                    refv = float({"min": np.nanmin, "max": np.nanmax,
+                                  "mean": np.nanmean}[name](sel))
+                out.append((o, val))
+                ok = close_to(np, val, refv) if name == "mean" else (
+                    val == refv or (np.isnan(val) and np.isnan(refv)))
+                if not ok:
+                    fails.append(("basin-" + name, "mapped basin (%s map %s)"
+                                  ": reported %s %r, numpy.nan%s of the "
+                                  "mapped events is %r" % (
+                                      case.get("kind"), case["bm"], name, val,
+                                      name, refv)))
+    finally:
+        for p in (src, ref):
+            if os.path.exists(p):
+                os.unlink(p)
+    return out, fails
+
+
+def _work_basin(args):
+    case, scratch = args
+    try:
+        return run_basin_impl(case, scratch)
+    except BaseException as e:
+        return [], [("harness", "run_basin_impl crashed: %r" % (e,))]
+
+
+def render_basin(case):
+    vals = common.clist(["(%d, %s)" % (x, common.zlit(k))
+                         for x, k in case["vals"]])
+    return "(%s, %s, %s)" % (vals, common.zlist(case["bm"]),
+                             common.zlist(case["bops"]))
+
+
+def compare_basin(np, model, out):
+    pos = 0
+    for which, val in out:
+        width = 3 if which == 2 else 2
+        enc = model[pos:pos + width]
+        pos += width
+        if which < 2:
+            if enc != enc_f(np, val):
+                return "query %d: model %s, implementation %r" % (which, enc,
+                                                                  val)
+        else:
+            t, pp, q = enc
+            ok = close_to(np, pp / q / 8, val) if t == 0 and q else (
+                t != 0 and enc_f(np, val)[0] == t)
+            if not ok:
+                return "mean: model %s, implementation %r" % (enc, val)
+    if pos != len(model):
+        return "number of queries differs"
+    return None
+
+
 def gen_case(rng, thorough=False):
     if rng.random() < 0.15:
         return gen_join_case(rng)
@@ -498,7 +630,7 @@ def classify(case, key):
     return None
 
 
-def load_corpus():
+def load_corpus_all():
     d = os.path.join(common.VERIF, "corpus", PROP)
     cases = []
     if os.path.isdir(d):
@@ -506,6 +638,10 @@ def load_corpus():
             if fn.endswith(".json"):
                 cases.append(json.load(open(os.path.join(d, fn)))["case"])
     return cases
+
+
+def load_corpus():
+    return [c for c in load_corpus_all() if "ops" in c]
 
 
 def _work(args):
@@ -569,6 +705,30 @@ def run(run):
             run.oracle_failure(c, desc, None)
         run.corr_checked += 1
         d = compare_child(np, m, out)
+        if d:
+            run.mismatch(c, d, [list(o) for o in out])
+    # features of mapped basins: maps of every kind, reads and queries in
+    # any order
+    bcases = [c for c in load_corpus_all() if "bm" in c]
+    while len(bcases) < (800 if run.thorough else 80):
+        bcases.append(gen_basin_case(run.rng))
+    with multiprocessing.get_context("fork").Pool(min(8, common.NCPU)) as pool:
+        bres = pool.map(_work_basin, [(c, run.scratch) for c in bcases],
+                        chunksize=8)
+    bmodel = common.coq_map(run.scratch, "c20b", HEADER, "basin_flat",
+                            [render_basin(c) for c in bcases], shard=40)
+    for c, m, (out, fails) in zip(bcases, bmodel, bres):
+        run.record_case(c, c["bm"] != list(range(len(c["vals"]))))
+        run.count("basin-map:" + str(c.get("kind")))
+        k = c["bops"].index(3) if 3 in c["bops"] else len(c["bops"])
+        run.count("basin-queries-before-read", sum(
+            1 for o in c["bops"][:k] if o != 3))
+        run.count("basin-queries-after-read", sum(
+            1 for o in c["bops"][k:] if o != 3))
+        for key, desc in fails:
+            run.oracle_failure(c, desc, None)
+        run.corr_checked += 1
+        d = compare_basin(np, m, out)
         if d:
             run.mismatch(c, d, [list(o) for o in out])
     production_runs(run)
@@ -714,8 +874,32 @@ def _production_runs(run):
 
 
 # --------------------------------------------------------------------------
+def shrink_basin(run, failure):
+    case = failure["case"]
+
+    def bad(c):
+        try:
+            return bool(run_basin_impl(c, run.scratch)[1])
+        except BaseException:
+            return False
+    cur = dict(case)
+    changed = True
+    while changed:
+        changed = False
+        for i in range(len(cur["bops"])):
+            cand = dict(cur, bops=cur["bops"][:i] + cur["bops"][i + 1:])
+            if cand["bops"] and bad(cand):
+                cur, changed = cand, True
+                break
+    desc = run_basin_impl(cur, run.scratch)[1]
+    return dict(case=cur, desc=desc[0][1] if desc else failure["desc"],
+                finding=None)
+
+
 def shrink(run, failure):
     case = failure["case"]
+    if "bm" in case:
+        return shrink_basin(run, failure)
     if "ops" not in case:
         return failure
 
@@ -769,6 +953,21 @@ def replay(payload):
     import shutil
     import tempfile
     case = payload.get("case")
+    if case and "bm" in case:
+        scratch = tempfile.mkdtemp(prefix="verif-C20-replay-",
+                                   dir=os.environ.get("VERIF_SCRATCH",
+                                                      "/var/tmp"))
+        try:
+            out, fails = run_basin_impl(case, scratch)
+        finally:
+            shutil.rmtree(scratch, ignore_errors=True)
+        print("case:", json.dumps(case)[:3000])
+        print("queries (which, value):", out)
+        for key, desc in fails:
+            print("FAILS:", desc)
+        if not fails:
+            print("passes on the current tree")
+        return 1 if fails else 0
     if case and "hops" in case:
         scratch = tempfile.mkdtemp(prefix="verif-C20-replay-",
                                    dir=os.environ.get("VERIF_SCRATCH",
